@@ -8,6 +8,11 @@
 import JrsVerif.Proofs.Stack
 import JrsVerif.Proofs.Total
 import JrsVerif.Props.C08
+import JrsVerif.Props.C09
+import JrsVerif.Props.C11
+import JrsVerif.Props.C17
+import JrsVerif.Proofs.TotalKern
+import JrsVerif.Proofs.TotalFormat
 
 namespace JrsVerif.Props.C04
 open JrsVerif.Stack
@@ -116,9 +121,11 @@ def PrepareCallTotalStmt : Prop :=
   ∀ (ps : List Param) (unnamed : Nat) (named : List String),
     ps.length < 2 ^ 63 → named.length < 2 ^ 63 → ∀ why, prepareCall ps unnamed named ≠ .panic why
 
-/-- … is false for the code as it stands: a function literal with a repeated parameter name runs
-    into `unreachable!()` (known finding `c04_duplicate_parameter_names_panic`; the harness replays
-    exactly this witness: `function(a, a) [a, a]` called with `a=…`) -/
+/-- … is false for `prepare_call` taken alone: a signature with a repeated parameter name runs
+    into `unreachable!()`.  Formerly the finding `c04_duplicate_parameter_names_panic`
+    (`function(a, a) [a, a]` called with `a=…`); since the repair both parsers reject such a
+    parameter list (`params_accepted_iff_nodup`, `prepareCall_total_for_parsed` below), so no
+    function value built from source reaches this witness any more. -/
 theorem prepareCall_counterexample : ¬ PrepareCallTotalStmt := by
   intro h
   exact h [⟨some "a", false⟩, ⟨some "a", false⟩] 0 ["a"] (by decide) (by decide) "unreachable" (by decide)
@@ -262,5 +269,107 @@ example : truncateDebug (97 :: List.replicate 200 233) 256 =
     (slice / reverse / repeat / range arithmetic on `usize`/`u32`/`i32`): C08's `get_total` -/
 theorem arrGet_total (t : JrsVerif.Arr.T) (h : t.WF) (i : Nat) :
     JrsVerif.Arr.get (JrsVerif.Arr.build t) i ≠ .panic := JrsVerif.Arr.get_total t h i
+
+/-! ## 4. Round 3: the repaired defects, modelled -/
+open JrsVerif.TotalKern
+
+/-- `ExprParams::duplicate_name`, the check both parsers run on a parameter list, accepts exactly
+    the lists whose parameter names are pairwise different … -/
+theorem params_accepted_iff_nodup (ps : List Param) : paramsAccepted ps = true ↔ NodupNames ps := by
+  unfold paramsAccepted
+  rw [Option.isNone_iff_eq_none]
+  exact duplicateName_none_iff ps
+
+/-- … so for every function that can exist at run time (its parameter list went through a parser)
+    `prepare_call` never panics: the `distinct names` hypothesis of `prepareCall_partial` (and of the
+    C01 binding theorems) is discharged by the parser. -/
+theorem prepareCall_total_for_parsed (ps : List Param) (unnamed : Nat) (named : List String)
+    (hacc : paramsAccepted ps = true) (hp : ps.length < 2 ^ 63) (hq : named.length < 2 ^ 63)
+    (why : String) : prepareCall ps unnamed named ≠ .panic why :=
+  prepareCall_partial ps unnamed named ((params_accepted_iff_nodup ps).mp hacc) hp hq why
+
+example : paramsAccepted [⟨some "a", false⟩, ⟨some "b", true⟩, ⟨none, false⟩, ⟨none, true⟩] = true := by decide
+/-- the former witnesses are rejected, and the reported name is the repeated one -/
+example : duplicateName [⟨some "a", false⟩, ⟨some "a", false⟩] = some "a" ∧
+    duplicateName [⟨some "a", false⟩, ⟨some "b", false⟩, ⟨some "a", true⟩] = some "a" ∧
+    duplicateName [⟨some "x", false⟩, ⟨some "y", false⟩, ⟨some "y", false⟩, ⟨some "x", false⟩] = some "y" := by
+  decide
+
+/-- Pending markers of `ObjValue::get_idx` after the repair: of any chain of nested, unfinished
+    entries of one field — whatever the object's asserting state is at each of them — at most two
+    are let through; the next one is `InfiniteRecursionDetected`.  So a field cannot re-enter
+    itself without bound (formerly the finding `c04_self_dependent_field_under_assert_hangs`). -/
+theorem pending_reentry_bounded (m : Mark) (flags : List Bool) : admitted enter m flags ≤ 2 :=
+  admitted_le_two m flags
+
+/-- the re-entry the escape exists for still works: a field read from outside starts the
+    assertions, an assertion reads that same field (`{ assert self.a == 1, a: 1 }.a`) -/
+theorem assertion_may_read_pending_field : admitted enter .vacant [false, true] = 2 := by decide
+
+/-- not asserting, the second entry is already refused (ordinary self-dependence) -/
+theorem pending_reentry_refused_when_not_asserting (a : Bool) (rest : List Bool) :
+    admitted enter .vacant (a :: false :: rest) = 1 := by
+  cases a <;> simp [admitted, enter]
+
+/-- before the repair every entry was let through while asserting: unbounded re-entry -/
+theorem pending_orig_defect (n : Nat) :
+    admitted enterOrig .vacant (List.replicate (n + 1) true) = n + 1 := admittedOrig_all n
+
+/-! ## 5. Round 3: kernels of other properties with their checked operations made explicit -/
+
+/-- `<<`: none of the checked `i64`/`u32` operations of the arm (`63 - exp as u32`,
+    `1i64 << k`, unary minus) can panic, for all operands; the result is C09's reference meaning. -/
+theorem shift_total (a b : JrsVerif.Num.D) : shlK a b = some (JrsVerif.Num.Spec.shl a b) := by
+  rw [shlK_eq, JrsVerif.Num.shl_spec]
+
+theorem shift_never_panics (a b : JrsVerif.Num.D) : shlK a b ≠ none := by
+  rw [shift_total]; simp
+
+/-- `std.findSubstr`: the `usize` subtraction and the byte slice `strb[i..i + pat.len()]` never
+    panic, for all pairs of strings (of less than 2^64 bytes); the result is C11's reference. -/
+theorem findSubstr_total (pat s : List Nat) (hw : (JrsVerif.Str.enc s).length < Total.USIZE) :
+    findSubstrK pat s = some (JrsVerif.Str.Spec.findSubstr pat s) := by
+  rw [findSubstrK_eq pat s hw, JrsVerif.Str.findSubstr_spec]
+
+example : findSubstrK [233] [97] = some [] ∧ findSubstrK [97] [233, 97, 98, 97] = some [1, 3] := by
+  decide
+
+/-- `print_code_location`: the one unchecked `start.column - 1` cannot underflow for locations
+    computed by `offset_to_location` (a column is at least 2 there), for every pair of
+    character-boundary offsets of every text. -/
+theorem printCodeLocation_total (pre₁ post₁ pre₂ post₂ : List Char) :
+    printCodeLocationK (JrsVerif.Loc.Spec.locate pre₁ post₁) (JrsVerif.Loc.Spec.locate pre₂ post₂) =
+      some (JrsVerif.Loc.printCodeLocation (JrsVerif.Loc.Spec.locate pre₁ post₁)
+        (JrsVerif.Loc.Spec.locate pre₂ post₂)) :=
+  printCodeLocationK_eq _ _ (by simp [JrsVerif.Loc.Spec.locate])
+
+/-- … stated on what the walker returns: for any tuple of requested boundary offsets, printing the
+    span between the `i`-th and `j`-th answer never panics -/
+theorem offsetToLocation_print_total (pre₁ post₁ pre₂ post₂ : List Char) (offs : List Nat)
+    (h : pre₁ ++ post₁ = pre₂ ++ post₂) (hv : JrsVerif.Loc.Boundaries (pre₁ ++ post₁) offs)
+    (i j : Nat) (hi : offs[i]? = some (JrsVerif.Loc.byteLen pre₁))
+    (hj : offs[j]? = some (JrsVerif.Loc.byteLen pre₂)) :
+    ∃ s e, (JrsVerif.Loc.offsetToLocation (pre₁ ++ post₁) offs)[i]? = some s ∧
+      (JrsVerif.Loc.offsetToLocation (pre₁ ++ post₁) offs)[j]? = some e ∧
+      printCodeLocationK s e ≠ none := by
+  refine ⟨JrsVerif.Loc.Spec.locate pre₁ post₁, JrsVerif.Loc.Spec.locate pre₂ post₂,
+    JrsVerif.Loc.model_eq_spec pre₁ post₁ offs hv i hi, ?_, ?_⟩
+  · rw [h] at hv ⊢; exact JrsVerif.Loc.model_eq_spec pre₂ post₂ offs hv j hj
+  · rw [printCodeLocation_total]; simp
+
+/-- `format_code` never reaches a panic site (the `u16` additions of `render_integer` and
+    `render_float`), for every value, conversion, flag set, width and precision (C12's
+    specification theorems cover every conversion) … -/
+theorem formatCode_total (v : JrsVerif.Format.Val) (c : JrsVerif.Format.Code) (w : Nat) (p : Option Nat)
+    (hv : ∀ n d, v = .num n d → n.whole < JrsVerif.Format.DBL_BOUND ∧ JrsVerif.Format.OracleOK n) :
+    JrsVerif.Format.formatCode v c w p ≠ .error .panic :=
+  JrsVerif.Format.formatCode_no_panic v c w p hv
+
+/-- … and `parse_codes` never panics on any format string (its `u16` width accumulation is
+    checked: `"%99999d"` is an error) -/
+theorem parseCodes_total (s : List Char) : JrsVerif.Format.parseCodes s ≠ .error .panic :=
+  JrsVerif.Format.parseCodes_no_panic s
+
+example : JrsVerif.Format.parseCodes "%99999d".toList = .error .tooLarge := rfl
 
 end JrsVerif.Props.C04
